@@ -83,6 +83,7 @@ type Env struct {
 	Names   []string
 	OS      ros.OS
 	Probe   func(site int64)
+	OnVM    func(m *vm.VirtualMachine) // called after the VM is built, before it runs
 }
 
 // NewEnv builds the standard harness environment: risor's builtins + print/printf +
@@ -187,6 +188,9 @@ func (e *Env) RunCode(code *compiler.Code, names []string, timeout time.Duration
 	machine := vm.New(code, vm.WithGlobals(e.Globals), vm.WithOS(e.OS), vm.WithConcurrency())
 	o.VM = machine
 	o.Code = code
+	if e.OnVM != nil {
+		e.OnVM(machine)
+	}
 	if err := machine.Run(ctx); err != nil {
 		o.Stage = "run"
 		o.ErrText = err.Error()
